@@ -232,7 +232,7 @@ func famOf(line []byte) family {
 }
 
 func emptyObs() *Obs {
-	return &Obs{ErrNames: []S{}, ErrList: []S{}, Values: [][]any{}, Pos: [][][]S{}, Retargs: []S{}, Chain: []int{}, Events: []event{}, IsSet: []bool{}}
+	return &Obs{ErrNames: []S{}, ErrList: []S{}, Values: [][]any{}, Pos: [][][]S{}, Retargs: []S{}, Chain: []int{}, Events: []event{}, IsSet: []bool{}, IsSetDef: []bool{}}
 }
 
 func init() {
